@@ -89,17 +89,64 @@ var sqlOpenersDelta = uniq([]string{""}, alpha.S2, alpha.SQLPrefixes[:14])
 var htmlOpenersDelta = uniq([]string{"", "<a href=", "<a href=\"", "<a href='", "<a x=", "<a ", "<a x=\""}, alpha.H2, alpha.HTMLPrefixes)
 
 func deltaSQLPhase(eval func(w *fw.W, s, aux string)) fw.Phase {
-	return fw.Phase{Name: "new-literals", Space: deltaSpace, Share: 2,
+	return fw.Phase{Name: "new-literals", Space: deltaSpace + "; each new symbol between two literal-producing fragments behind 0..20 list items / empty strings / blanks", Share: 2,
 		Run: func(w *fw.W) {
 			deltaRun(w, uniq(alpha.DeltaSQLRaw(), newByteAtoms()), uniq(alpha.DeltaSQL(), newByteAtoms()), sqlOpenersDelta, alpha.S1core, uniq(alpha.S1, alpha.S2))
+			list(w, deltaSlotsSQL())
 		}, Eval: eval}
 }
 
+// deltaSlotsSQL: a new word between two literal-producing fragments, at growing offsets (a clause that extends a literal).
+func deltaSlotsSQL() []string {
+	var out []string
+	lits := []string{"'a'", "u&'a'", "U&'a'", "n'a'", "x'41'", "q'(a)'", "$a$b$a$", "`a`", "@a", "1", "a"}
+	for _, a := range alpha.DeltaSQL() {
+		for _, l := range lits {
+			for _, l2 := range []string{"'!'", "1", "a"} {
+				for _, pre := range []string{"1,", "'' ", " "} {
+					for _, k := range []int{0, 1, 5, 9, 20} {
+						out = append(out, strings.Repeat(pre, k)+l+" "+a+" "+l2, strings.Repeat(pre, k)+l+a+l2)
+					}
+				}
+			}
+		}
+	}
+	return out
+}
+
 func deltaHTMLPhase(eval func(w *fw.W, s, aux string)) fw.Phase {
-	return fw.Phase{Name: "new-literals", Space: deltaSpace, Share: 2,
+	return fw.Phase{Name: "new-literals", Space: deltaSpace + "; each new symbol (and each ordered pair) as element name / attribute name / value of 14 vector templates, with growing-rune content", Share: 2,
 		Run: func(w *fw.W) {
 			deltaRun(w, uniq(alpha.DeltaHTMLRaw(), newByteAtoms()), uniq(alpha.DeltaHTML(), newByteAtoms()), htmlOpenersDelta, alpha.H1core, uniq(alpha.H1, alpha.H2))
+			list(w, deltaSlotsHTML())
 		}, Eval: eval}
+}
+
+// deltaSlotsHTML: the new literals (lower-case forms) in the slots of canonical vectors: element name, attribute
+// name, value; ordered pairs as (element, attribute); element content made of runes that grow when case-folded.
+func deltaSlotsHTML() []string {
+	var atoms []string
+	seen := map[string]bool{}
+	for _, a := range alpha.DeltaHTMLRaw() {
+		l := asciiLower(a)
+		if !seen[l] && !strings.ContainsAny(l, "<>= \t\n'\"`/") && l != "" {
+			seen[l] = true
+			atoms = append(atoms, l)
+		}
+	}
+	if len(atoms) > 24 {
+		atoms = atoms[:24]
+	}
+	var out []string
+	for _, a := range atoms {
+		out = append(out, "<"+a+">", "<"+a+" x=y>", "<"+a+" href=javascript:x>", "<a "+a+"=javascript:x>", "<a "+a+"=x>", "<a "+a+"=onclick>", "</"+a+">", "<"+a+"/>",
+			"<"+a+">"+strings.Repeat("\xff", 12)+"</"+a+">", "<"+a+">"+strings.Repeat("\u023a", 12)+"</"+a+">", "<"+a+" x=y>aaaa</"+a+"><script>", "<"+a+"><script>alert(1)</script></"+a+">",
+			"x'><"+a+" onerror=x>", "<a href="+a+":x>")
+		for _, b := range atoms {
+			out = append(out, "<"+a+" "+b+"=javascript:x>", "<"+a+" name=movie "+b+"=javascript:alert(1)>", "<"+a+" "+b+"=x onerror=y>")
+		}
+	}
+	return out
 }
 
 // ---- keyword sweep ------------------------------------------------------------------------------------
